@@ -37,12 +37,12 @@ SYSTEMS = list(algos.ALGOS) + ['agg_mean', 'agg_uniform', 'agg_rotated', 'agg_dr
 SHARDS = {'quick': 8, 'thorough': 14}
 SHARD_TIMEOUT = {'quick': 900, 'thorough': 3400}
 MIN_HITS = {
-    'quick': {**{f'rounds:{s}': 12 for s in SYSTEMS}, **{f'cont:{s}': 8 for s in SYSTEMS},
-              **{f'hidden:{s}': 3 for s in SYSTEMS}, 'mon:determinism': 300, 'mon:purity': 400, 'mon:serial': 500,
-              'mon:hidden': 60, 'mon:aggkey': 30, 'repeat-participation': 80},
-    'thorough': {**{f'rounds:{s}': 150 for s in SYSTEMS}, **{f'cont:{s}': 100 for s in SYSTEMS},
-                 **{f'hidden:{s}': 40 for s in SYSTEMS}, 'mon:determinism': 3000, 'mon:purity': 4000, 'mon:serial': 5000,
-                 'mon:hidden': 600, 'mon:aggkey': 300, 'repeat-participation': 800},
+    'quick': {**{f'rounds:{s}': 16 for s in SYSTEMS}, **{f'cont:{s}': 12 for s in SYSTEMS},
+              **{f'hidden:{s}': 6 for s in SYSTEMS}, 'mon:determinism': 400, 'mon:purity': 600, 'mon:serial': 700,
+              'mon:hidden': 100, 'mon:aggkey': 50, 'repeat-participation': 120},
+    'thorough': {**{f'rounds:{s}': 250 for s in SYSTEMS}, **{f'cont:{s}': 300 for s in SYSTEMS},
+                 **{f'hidden:{s}': 150 for s in SYSTEMS}, 'mon:determinism': 6000, 'mon:purity': 9000, 'mon:serial': 10000,
+                 'mon:hidden': 1800, 'mon:aggkey': 800, 'repeat-participation': 2000},
 }
 EXHAUSTIVE = {'quick': False, 'thorough': False}
 TECHNIQUE = ('runtime monitoring: state sanitizer (deep container + leaf snapshots, deleted-buffer detection) + '
@@ -474,7 +474,7 @@ def run(ctx):
   import jax
   import fedjax
   from fedjax.algorithms import apfl  # noqa: F401  (not imported by fedjax.algorithms.__init__)
-  per = 6 if ctx.quick else 60
+  per = 8 if ctx.quick else 120
   items = [(s, j) for j in range(per) for s in SYSTEMS]
   tmpdir = tempfile.mkdtemp(prefix='vmon-c10-', dir=os.environ.get('VMON_WORK') or None)
   for cid, (system, j) in ctx.enum('hist', items):
